@@ -177,7 +177,11 @@ class FileParser:
                 f"{filename} doesn't appear "
                 + "to be a language this tool can process",
             )
-        with open(filename, errors="replace") as source_file:
+        with open(
+            filename,
+            encoding="utf-8-sig",
+            errors="replace",
+        ) as source_file:
             groups = {
                 "code": LineGroup(),
                 "directive": LineGroup(),
